@@ -53,13 +53,13 @@ def _shard(pid, tag, k, cases, secs, configs, mem_mb, module="walk", extra=()):
     return results, deaths
 
 
-def run(pid, tag, cases, shards=14, secs=10, configs="all", mem_mb=3072, extra=()):
+def run(pid, tag, cases, shards=14, secs=10, configs="all", mem_mb=3072, extra=(), module="walk"):
     """cases: list of {"id", "cls", "hex", ...}. Returns (results, deaths)."""
     vlib.build_harness()
     parts = [cases[k::shards] for k in range(shards)]
     results, deaths = [], []
     with cf.ThreadPoolExecutor(max_workers=shards) as ex:
-        futs = [ex.submit(_shard, pid, tag, k, part, secs, configs, mem_mb, "walk", extra) for k, part in enumerate(parts) if part]
+        futs = [ex.submit(_shard, pid, tag, k, part, secs, configs, mem_mb, module, extra) for k, part in enumerate(parts) if part]
         for f in futs:
             r, d = f.result()
             results += r
